@@ -42,7 +42,10 @@ claim('C12',
       'Taint analysis from cart-controlled text (include lines, require '
       'strings) to every file-system sink, for all path strings at once: each '
       'tainted sink is dominated by a raising sanitizer on the very value '
-      'opened; containment tests between paths must be component-wise; the '
+      'opened; the language of require strings that pass the raising filter '
+      '(predicates and regex tests turned into automata) contains no string '
+      'with a `..` path component -- first, middle or last -- and none '
+      'starting with `/`; containment tests between paths must be component-wise; the '
       'load path never derives from cart text; and the load-path lookup '
       '(_locate_require_file) is evaluated on a recording stand-in file '
       'system: every path it asks about is a load-path candidate (argument, '
@@ -137,8 +140,12 @@ claim('C02',
       'recognised positional form (a textbook argument, not mechanised); the '
       'evaluation of _name_for_id on ids 0..1407 and around the 3/4-letter '
       'boundary can only produce a witness (two ids, one name), a clean '
-      'result there proves nothing and is not reported as more. Trusted '
-      'base: refs/pico8_api.py.',
+      'result there proves nothing and is not reported as more; likewise '
+      'get_short_name evaluated on fresh factories (default; keep file whose '
+      'names include the neighbours of preserved names in the order of '
+      'generation) for 300 names each: a generated name the factory itself '
+      'leaves unchanged, or two names with one short name, is a witness. '
+      'Trusted base: refs/pico8_api.py.',
       'static analysis: def-use / who-stores enumeration, CFG path checks on '
       'the allocation loop, constant evaluation, sibling-consistency of guard '
       'sets, abstract evaluation of the id expansion on a listed id range',
@@ -216,7 +223,10 @@ claim('C09',
       'type are emitted by the handler; the statement-separator echo '
       '(_get_semis) is evaluated on token lists with 0-3 semicolons and a '
       'stand-in spacing hook: every semicolon consumed is written, spacing '
-      'in front of it.',
+      'in front of it; every list-walking handler is evaluated on stand-in '
+      'nodes with 0-3 elements, tokens back to back and with a space / line '
+      'end / comment token before every token (the writer\'s own spacing '
+      'routine): every token echoed once, in order.',
       'Decided: the necessary conditions above, for all programs. Four open '
       'known findings: parenthesised prefix expressions under '
       'FunctionCall/FunctionCallMethod/VarIndex/VarAttribute make every AST '
@@ -257,7 +267,11 @@ claim('C01',
       'exhaustive product search over the implementation\'s own lexer '
       'automaton, for every grammar-adjacent ordered pair of token classes, '
       'all spellings and all continuations; plus newline preservation '
-      'between code tokens, option wiring and the sanity re-parse ordering.',
+      'between code tokens, option wiring and the sanity re-parse ordering. '
+      'Shared clauses: string literals by decoded value (the escape round '
+      'trip of C06), header comments (C19), and the renaming (the name '
+      'factory of C02 evaluated on fresh factories, default and with a keep '
+      'file: no generated name is one the factory leaves unchanged).',
       'Decided: one chunk per code token with identity/short-name dataflow, '
       'line-end preservation, no-glue for all adjacent pairs (empty product '
       '= proof; non-empty = shortest witness). Not decided: that the re-lexed '
@@ -358,7 +372,9 @@ claim('C03',
       'header and 5-digit notes, music flags/channels; exactly one bit, bit '
       '7 of music channel 3, is not carried); produced line lengths equal '
       'the readers\' filter constants; section names/classes agree; header '
-      'and version lines; label and final-newline logic.',
+      'and version lines; label and final-newline logic; the string '
+      'literals of the __lua__ section, which the writer re-spells from '
+      'their decoded value (the escape round trip shared with C06).',
       'Decided: codec agreement, line-length agreement, section dispatch '
       'agreement, text-section plumbing. Not decided: equality of the '
       're-read cart and byte-identity of a rewrite for concrete carts '
